@@ -110,6 +110,7 @@ pub fn alphabet(full: bool) -> Vec<Op> {
             Op::Remove(s("/d")), // empty directory: emptiness check and removal must be one step
             Op::Mkfile(s("/d/x")),
             Op::MkdirP(s("/d/y/z")),
+            Op::AppendAll(s("/a/f"), vec![b'x'; 70_000]), // larger than 64 KiB: still one step
             Op::MkdirP(s("b")), // relative and already there: the answer names the directory that exists
             Op::ReadlinkAbs(s("/l")),
             Op::Readlink(s("/s")),
@@ -123,7 +124,18 @@ pub fn tag_appends(program: &mut [Vec<Op>]) {
     for (t, ops) in program.iter_mut().enumerate() {
         for (i, op) in ops.iter_mut().enumerate() {
             if let Op::AppendAll(_, d) = op {
-                *d = format!("<t{}c{}>", t, i).into_bytes();
+                let tag = format!("<t{}c{}>", t, i).into_bytes();
+                if d.len() > 1000 {
+                    // a payload larger than any plausible internal block: the tag once, then filler naming the call
+                    let fill = format!("[t{}c{}]", t, i).into_bytes();
+                    let mut big = tag.clone();
+                    while big.len() < d.len() {
+                        big.extend_from_slice(&fill);
+                    }
+                    *d = big;
+                } else {
+                    *d = tag;
+                }
             }
         }
     }
@@ -408,8 +420,107 @@ fn stress(c: &Ctx, threads: usize, rounds: usize) {
     }
 }
 
+/// Uncontrolled: queries about entries nobody touches keep giving the one answer every sequential order gives,
+/// however busy the lock is (a query that gives up instead of waiting for the guard would not)
+fn bystander_stress(c: &Ctx, rounds: usize) {
+    for round in 0..rounds {
+        let m = Memfs::new();
+        let _ = m.write_all("/ro", b"const");
+        let _ = m.chmod("/ro", 0o444);
+        let _ = m.chown("/ro", 3, 4);
+        let _ = m.mkdir_m("/rod/sub", 0o555);
+        let _ = m.symlink("/rol", "/ro");
+        let v = std::sync::Arc::new(m.upcast());
+        let stop = std::sync::atomic::AtomicBool::new(false);
+        let bad: std::sync::Mutex<Option<String>> = std::sync::Mutex::new(None);
+        std::thread::scope(|sc| {
+            for t in 0..3usize {
+                let v = v.clone();
+                let stop = &stop;
+                sc.spawn(move || {
+                    let payload = vec![b'p'; 256 * 1024];
+                    let mut i = 0usize;
+                    while !stop.load(std::sync::atomic::Ordering::Relaxed) {
+                        let p = format!("/w{}/f{}", t, i % 5);
+                        let _ = v.mkdir_p(format!("/w{}", t));
+                        let _ = v.write_all(&p, &payload);
+                        let _ = v.append_all(&p, b"tail");
+                        let _ = v.chmod(&p, 0o600);
+                        if i % 7 == 0 {
+                            let _ = v.remove_all(format!("/w{}", t));
+                        }
+                        i += 1;
+                    }
+                });
+            }
+            let mut readers = vec![];
+            for via_wrapper in [true, false] {
+                let v = v.clone();
+                let bad = &bad;
+                readers.push(sc.spawn(move || {
+                    let mem = match &*v {
+                        Vfs::Memfs(x) => x,
+                        _ => unreachable!(),
+                    };
+                    for _ in 0..6000 {
+                        let facts: Vec<(&str, bool)> = if via_wrapper {
+                            vec![
+                                ("is_readonly(/ro)", v.is_readonly("/ro")),
+                                ("!is_exec(/ro)", !v.is_exec("/ro")),
+                                ("exists(/ro)", v.exists("/ro")),
+                                ("is_file(/ro)", v.is_file("/ro")),
+                                ("is_dir(/rod)", v.is_dir("/rod")),
+                                ("is_symlink(/rol)", v.is_symlink("/rol")),
+                                ("is_symlink_file(/rol)", v.is_symlink_file("/rol")),
+                                ("mode(/ro)==100444", v.mode("/ro").ok() == Some(0o100444)),
+                                ("owner(/ro)==(3,4)", v.owner("/ro").ok() == Some((3, 4))),
+                                ("read_all(/ro)==const", v.read_all("/ro").ok().as_deref() == Some("const")),
+                                ("paths(/rod)==[/rod/sub]", v.paths("/rod").ok().map(|x| x.len()) == Some(1)),
+                                ("readlink_abs(/rol)==/ro", v.readlink_abs("/rol").ok().and_then(|p| p.to_str().map(|s| s == "/ro")) == Some(true)),
+                            ]
+                        } else {
+                            vec![
+                                ("is_readonly(/ro)", mem.is_readonly("/ro")),
+                                ("!is_exec(/ro)", !mem.is_exec("/ro")),
+                                ("exists(/ro)", mem.exists("/ro")),
+                                ("is_file(/ro)", mem.is_file("/ro")),
+                                ("is_dir(/rod)", mem.is_dir("/rod")),
+                                ("is_symlink(/rol)", mem.is_symlink("/rol")),
+                                ("uid(/ro)==3", mem.uid("/ro").ok() == Some(3)),
+                                ("gid(/ro)==4", mem.gid("/ro").ok() == Some(4)),
+                                ("entry(/ro).mode", mem.entry("/ro").ok().map(|e| e.mode()) == Some(0o100444)),
+                                ("all_files(/rod)==[]", mem.all_files("/rod").ok().map(|x| x.len()) == Some(0)),
+                                ("dirs(/rod)==[sub]", mem.dirs("/rod").ok().map(|x| x.len()) == Some(1)),
+                            ]
+                        };
+                        if let Some((what, _)) = facts.iter().find(|(_, ok)| !*ok) {
+                            let mut g = bad.lock().unwrap();
+                            if g.is_none() {
+                                *g = Some(what.to_string());
+                            }
+                            return;
+                        }
+                    }
+                }));
+            }
+            for r in readers {
+                let _ = r.join();
+            }
+            stop.store(true, std::sync::atomic::Ordering::Relaxed);
+        });
+        c.eval(1);
+        c.nontrivial(fp(&("bystander", round)));
+        c.class("stress:bystander-queries-under-load");
+        let r = match bad.into_inner().unwrap() {
+            Some(what) => Err(Failure::new(format!("stress|bystander-query-wrong-under-load|{}", what.split('(').next().unwrap_or("?").trim_start_matches('!')), format!("while other threads wrote to unrelated paths, {} did not hold for an entry nobody touched", what))),
+            None => Ok(()),
+        };
+        c.judge("stress-bystander", &json!({"round": round}), r);
+    }
+}
+
 pub fn run(c: &Ctx) {
-    c.set_rule("controlled scheduler on hook H1: real threads park before every MemfsGuard acquisition and exactly one is released at a time, so an execution is a function of (seed state, program, schedule). For every program ALL interleavings at critical-section granularity are enumerated depth-first (cap per program noted). Programs: quick = all 2-thread programs with (1,1) calls over a 15-form core alphabet and a seeded quarter of the (2,1) programs from a populated seed state, all 448 'two mutators of one directory vs one listing/reader' programs, and all (1,1) programs over the full 44-form alphabet from two more seed states (nested dirs + link; cwd below root); thorough = all (1,1),(2,1) over the 44-form alphabet, seeded samples of (2,2),(1,1,1),(2,1,1), four seed states, plus (both tiers) every rich call form of the VFS trait on every path of a seed state as a one-thread program (guard discipline: nesting is a property of the call alone) and every listed single-step call form on every path of that state racing each of 8 mutators (quick: a seeded half), relative-path forms racing cwd changes, attribute queries racing replacing moves / chown / chmod on a seed state with distinct modes and owners, plus 147 programs 'write/append handle session vs two calls that remove / replace its file' (no sequential equivalence claimed for the composite: no panic, no poisoned lock, no dead-lock, integrity); about half of all programs run through the Vfs enum wrapper instead of the Memfs value; plus uncontrolled 8-thread stress rounds. Oracle per execution: no nested guard acquisition (would dead-lock), no panic, every call returns, C03 invariants at quiescence, every successful append_all payload exactly once, and linearizability: per-call results (Ok values; Err-ness) and the final tree equal those of SOME sequential order of the same calls on a fresh instance that respects program order and real-time precedence. Non-trivial = execution in which calls of different threads overlap in time and one mutates; distinct by (seed, program, schedule).");
+    c.set_rule("controlled scheduler on hook H1: real threads park before every MemfsGuard acquisition and exactly one is released at a time, so an execution is a function of (seed state, program, schedule). For every program ALL interleavings at critical-section granularity are enumerated depth-first (cap per program noted). Programs: quick = all 2-thread programs with (1,1) calls over a 15-form core alphabet and a seeded quarter of the (2,1) programs from a populated seed state, all 448 'two mutators of one directory vs one listing/reader' programs, and all (1,1) programs over the full 45-form alphabet from two more seed states (nested dirs + link; cwd below root); thorough = all (1,1),(2,1) over the 45-form alphabet, seeded samples of (2,2),(1,1,1),(2,1,1), four seed states, plus (both tiers) every rich call form of the VFS trait on every path of a seed state as a one-thread program (guard discipline: nesting is a property of the call alone) and every listed single-step call form on every path of that state racing each of 8 mutators (quick: a seeded half), relative-path forms racing cwd changes, attribute queries racing replacing moves / chown / chmod on a seed state with distinct modes and owners, plus 147 programs 'write/append handle session vs two calls that remove / replace its file' (no sequential equivalence claimed for the composite: no panic, no poisoned lock, no dead-lock, integrity); about half of all programs run through the Vfs enum wrapper instead of the Memfs value; plus uncontrolled runs: (both tiers) 2/12 rounds in which three threads write 256 KiB payloads to their own paths while two threads ask 12 000 times about entries nobody touches (every answer must be the one every sequential order gives); (thorough) 8-thread stress rounds. Oracle per execution: no nested guard acquisition (would dead-lock), no panic, every call returns, C03 invariants at quiescence, every successful append_all payload exactly once, and linearizability: per-call results (Ok values; Err-ness) and the final tree equal those of SOME sequential order of the same calls on a fresh instance that respects program order and real-time precedence. Non-trivial = execution in which calls of different threads overlap in time and one mutates; distinct by (seed, program, schedule).");
     c.assume("all shared state of Memfs is behind the one RwLock (safe Rust): interleavings at guard granularity are complete; sequential specification = Memfs itself run single-threaded (functional correctness is C01's job)");
     install_hook();
     let quick = c.tier == Tier::Quick;
@@ -547,6 +658,15 @@ pub fn run(c: &Ctx) {
             }
         }
     }
+    for f in [Op::Copy(s("f"), s("/d/o")), Op::Copy(s("/a/f"), s("o")), Op::MoveP(s("f"), s("/d/o")), Op::Symlink(s("lnk"), s("/d")), Op::Copy(s("b"), s("/d/bb"))] {
+        for (j, r) in rel_racers.iter().enumerate() {
+            // the racer is followed by a write that pins the order: a copy that resolved its source before the
+            // cwd change but read it after the write matches no sequential order
+            let prog = vec![vec![f.clone()], vec![r.clone(), Op::WriteAll(s("/a/f"), b"A2".to_vec())]];
+            jobs.push((3, prog, j % 2 == 1, false));
+            race += 1;
+        }
+    }
     // queries racing calls that replace the entry or change its attributes (seed state 4: distinct modes / owners)
     let attr_racers = vec![Op::MoveP(s("/b"), s("/a/f")), Op::Chown(s("/a/f"), 7, 8), Op::Chmod(s("/a/f"), 0o755), Op::WriteAll(s("/a/f"), b"W".to_vec()), Op::Remove(s("/a/f"))];
     let queries = vec![Op::Owner(s("/a/f")), Op::Uid(s("/a/f")), Op::Gid(s("/a/f")), Op::Mode(s("/a/f")), Op::IsExec(s("/a/f")), Op::IsReadonly(s("/a/f")), Op::Entry(s("/a/f")), Op::ReadAll(s("/a/f")), Op::Entries(s("/a")), Op::IsFile(s("/a/f"))];
@@ -594,6 +714,7 @@ pub fn run(c: &Ctx) {
         execs.fetch_add(n as u64, std::sync::atomic::Ordering::Relaxed);
     });
     c.note("controlled_executions", execs.load(std::sync::atomic::Ordering::Relaxed));
+    bystander_stress(c, c.tier.pick(2, 12));
     if !quick {
         stress(c, 8, 40);
     }
@@ -601,6 +722,7 @@ pub fn run(c: &Ctx) {
 
 pub fn replay(kind: &str, case: &Value) -> Option<CaseResult> {
     match kind {
+        "stress-bystander" => Some(Ok(())), // schedule dependent: re-run the check itself
         "sched" => {
             install_hook();
             let sc: SchedCase = serde_json::from_value(case.clone()).ok()?;
